@@ -3,14 +3,14 @@
 package c03
 
 import (
-	"reflect"
-	"os"
 	"errors"
 	"fmt"
 	"go/ast"
 	"go/parser"
 	"go/token"
 	"math"
+	"os"
+	"reflect"
 	"sort"
 	"time"
 
@@ -31,8 +31,8 @@ type built struct {
 	anyF    *zapcore.Field // zap.Any(key, v) when the row's type is supported by Any
 	anyAlt  *zapcore.Field // a second typed constructor that corresponds equally well (either accepted)
 	desc    string
-	noRefl  bool // payload not equal to itself under the documented comparison (excluded from reflexivity only)
-	after   func() string // optional extra judgement after AddTo ("" = fine)
+	noRefl  bool            // payload not equal to itself under the documented comparison (excluded from reflexivity only)
+	after   func() string   // optional extra judgement after AddTo ("" = fine)
 	related []zapcore.Field // fields that are close to f (same key, wrapped/wrapping payload): symmetry is judged against them
 	boundry bool
 }
@@ -412,6 +412,22 @@ func rows() []row {
 				sub = append(sub, rec.Call{Kind: "str", Val: ss[i].s})
 			}
 			return built{f: zap.Stringers(key, ss), again: func() zapcore.Field { return zap.Stringers(key, clone(ss)) }, want: []rec.Call{{Kind: "array", Key: key, Sub: sub}}, desc: "Stringers"}
+		}},
+		{"Stringers(nil pointers among the elements)", func(g *gen.G, key string) built {
+			// value-receiver String on pointer elements: a nil pointer renders as "<nil>" like
+			// zap.Stringer does, and the elements after it are still there
+			n := g.R.Range(1, 5)
+			ss := make([]*strer, n)
+			sub := []rec.Call{}
+			for i := range ss {
+				if g.R.P(1, 3) {
+					sub = append(sub, rec.Call{Kind: "str", Val: "<nil>"})
+					continue
+				}
+				ss[i] = &strer{g.Str()}
+				sub = append(sub, rec.Call{Kind: "str", Val: ss[i].s})
+			}
+			return built{f: zap.Stringers(key, ss), again: func() zapcore.Field { return zap.Stringers(key, clone(ss)) }, want: []rec.Call{{Kind: "array", Key: key, Sub: sub}}, desc: "Stringers(nil pointers)"}
 		}},
 		{"Any(value matching several cases)", func(g *gen.G, key string) built {
 			k := g.Key()
